@@ -39,6 +39,10 @@ func genDupBlob(c *fw.Case, sz sizes) []byte {
 }
 
 func runC06(c *fw.Case) {
+	if desyncBin() != "" && c.Chance(1, 100, "c06.proc") {
+		runC06Proc(c)
+		return
+	}
 	sz := asmSizes[c.Draw(6, "c06.sizes")]
 	var blob []byte
 	if c.Chance(2, 3, "c06.dups") {
@@ -172,4 +176,174 @@ func runC06(c *fw.Case) {
 
 func TestC06(t *testing.T) {
 	fw.Main(t, &fw.Check{ID: "C06", Level: "exploration", Run: runC06})
+}
+
+// ---- C06 (process level): the real make / chop / cache / tar -i commands against a store that fails one request ----
+
+func runC06Proc(c *fw.Case) {
+	cmdKind := c.Draw(4, "proc.cmd")
+	names := []string{"chop", "cache", "make", "tar -i"}
+	n := []string{"1", "2", "4"}[c.Draw(3, "proc.n")]
+	dir := c.Dir()
+	sz := sizes{256, 1024, 4096}
+	if cmdKind >= 2 {
+		sz = sizes{1024, 4096, 16384} // the CLI takes chunk sizes in KiB
+	}
+	var blob []byte
+	srcTree := filepath.Join(dir, "src")
+	if cmdKind == 3 {
+		if _, err := genTree(c, srcTree, 25); err != nil {
+			c.HarnessError("%v", err)
+			return
+		}
+		var err error
+		if blob, err = tarTree(srcTree); err != nil {
+			c.HarnessError("%v", err)
+			return
+		}
+	} else if c.Bool("proc.dups") {
+		blob = genDupBlob(c, sz)
+	} else {
+		blob = genBlob(c, sz, 20*int(sz.max))
+	}
+	idx := mkIndex(blob, sz)
+	if len(idx.Chunks) == 0 {
+		c.Outcome("empty")
+		return
+	}
+	indexFile := filepath.Join(dir, "blob.caibx")
+	blobFile := filepath.Join(dir, "blob")
+	cacheDir := filepath.Join(dir, "cache")
+	os.WriteFile(blobFile, blob, 0644)
+	failKind := []string{"HEAD", "PUT"}[c.Draw(2, "proc.failkind")]
+	if cmdKind == 1 {
+		failKind = "GET"
+	}
+	c.Class(fmt.Sprintf("proc %s n=%s fail=%s", names[cmdKind], n, failKind))
+	c.Note("real `desync %s` n=%s chunks=%d, one %s request answered 500 (error-retry 0)", names[cmdKind], n, len(idx.Chunks), failKind)
+	args := func(g *gateServer) []string {
+		switch cmdKind {
+		case 0:
+			return []string{"chop", "-n", n, "-e", "0", "-s", g.url(), indexFile, blobFile}
+		case 1:
+			return []string{"cache", "-n", n, "-e", "0", "-s", g.url(), "-c", cacheDir, indexFile}
+		case 2:
+			return []string{"make", "-n", n, "-e", "0", "-m", "1:4:16", "-s", g.url(), indexFile, blobFile}
+		}
+		return []string{"tar", "-i", "-n", n, "-e", "0", "-m", "1:4:16", "-s", g.url(), indexFile, srcTree}
+	}
+	reset := func() {
+		os.RemoveAll(cacheDir)
+		os.MkdirAll(cacheDir, 0755)
+		if cmdKind >= 2 {
+			os.Remove(indexFile)
+		} else {
+			f, _ := os.Create(indexFile)
+			idx.WriteTo(f)
+			f.Close()
+		}
+	}
+	serve := func() *gateServer {
+		g, err := newGateServer(cmdKind != 1)
+		if err != nil {
+			c.HarnessError("%v", err)
+			return nil
+		}
+		if cmdKind == 1 {
+			for _, ch := range idx.Chunks {
+				g.addChunk(blob[ch.Start : ch.Start+ch.Size])
+			}
+		}
+		return g
+	}
+	complete := func(g *gateServer) string {
+		if cmdKind == 1 {
+			ls, _ := desync.NewLocalStore(cacheDir, desync.StoreOptions{})
+			for _, ch := range idx.Chunks {
+				if _, err := ls.GetChunk(ch.ID); err != nil {
+					return "chunk " + ch.ID.String()[:8] + " cannot be read back from the cache: " + err.Error()
+				}
+			}
+			return ""
+		}
+		for _, ch := range idx.Chunks {
+			s := ch.ID.String()
+			z, ok := g.stored["/"+s[:4]+"/"+s+".cacnk"]
+			if !ok {
+				return "chunk " + s[:8] + " was not stored"
+			}
+			if b, err := desync.Decompress(nil, z); err != nil || desync.Digest.Sum(b) != ch.ID {
+				return "stored chunk " + s[:8] + " is not valid"
+			}
+		}
+		if cmdKind >= 2 {
+			f, err := os.Open(indexFile)
+			if err != nil {
+				return "no index file was written"
+			}
+			defer f.Close()
+			got, err := desync.IndexFromReader(f)
+			if err != nil {
+				return "index file unreadable: " + err.Error()
+			}
+			if cls, d := compareTables(got.Chunks, idx.Chunks); cls != "" {
+				return "index does not describe the input: " + d
+			}
+		}
+		return ""
+	}
+	// fault-free run: success and completeness; counts the requests of the kind that will fail
+	reset()
+	g := serve()
+	if g == nil {
+		return
+	}
+	res, err := runPlain(args(g)...)
+	total := len(g.requests(failKind))
+	why := complete(g)
+	g.close()
+	if err != nil {
+		c.HarnessError("%v", err)
+		return
+	}
+	if res.exit != 0 || why != "" {
+		c.Violate("command-failed", "desync "+names[cmdKind], "fault-free run: exit %d, %s: %s", res.exit, why, res.output)
+		return
+	}
+	ks := map[int]bool{1: true, total: true}
+	for i := 0; i < 5 && total > 0; i++ {
+		ks[1+c.Draw(total, "proc.k")] = true
+	}
+	for k := 1; k <= total; k++ {
+		if !ks[k] {
+			continue
+		}
+		reset()
+		g := serve()
+		if g == nil {
+			return
+		}
+		g.failKind, g.failAt = failKind, k
+		res, err := runPlain(args(g)...)
+		why := complete(g)
+		failed := g.failed
+		g.close()
+		if err != nil {
+			c.HarnessError("%v", err)
+			return
+		}
+		c.SubEval(1)
+		if failed > 0 {
+			c.Fault("http-500-" + failKind)
+		}
+		if res.exit == 0 && failed > 0 {
+			c.Violate("failure-masked", "desync "+names[cmdKind], "%s request %d of %d was answered 500 (error-retry 0), yet the command exited 0 (store complete: %v)", failKind, k, total, why == "")
+			return
+		}
+		if res.exit == 0 && why != "" {
+			c.Violate("store-incomplete", "desync "+names[cmdKind], "the command exited 0 but %s", why)
+			return
+		}
+	}
+	c.Outcome("ok")
 }
